@@ -8,9 +8,10 @@ package proc
 // ---- C09: the listener releases whoever waits for it; connection limit ------------------------
 
 //@ func (*listener).Serve
-//@   prop C09
+//@   prop C09 C17
 //@   requires l != nil && l.done != nil && !closed(l.done)
 //@   modifies all
+//@   callpre defaultListenFunc @a-bind-is-attempted-only-right-after-finding-the-listener-neither-quitting-nor-draining polledopen(l.quit) && polledopen(l.drain)
 //@   ensures @done-closed-on-every-return closed(l.done)
 
 //@ func (*listener).connsLimit
